@@ -621,7 +621,8 @@ def scratch_dir(name):
 
 
 def rt_target_dir():
-    return os.path.join(BUILD, "target-rt")
+    # builders working in parallel set VERIF_RT_TARGET to a private directory to avoid lock contention
+    return os.environ.get("VERIF_RT_TARGET", os.path.join(BUILD, "target-rt"))
 
 
 def make_crate(name, main_rs, extra_files=None, features=("full",), edition="2021", deps_extra="", bin=True,
